@@ -234,9 +234,17 @@ def _group_integrands_by_quadrature_rule(
 
             if rule_cell_type not in grouped_integrands:
                 grouped_integrands[rule_cell_type] = {}
-            if rule not in grouped_integrands[rule_cell_type]:
-                grouped_integrands[rule_cell_type][rule] = []
-            grouped_integrands[rule_cell_type][rule].append(integral.integrand())
+            group = grouped_integrands[rule_cell_type]
+            if rule not in group:
+                group[rule] = []
+            elif not rule.has_tensor_factors:
+                # Rules with the same points are merged. If one of the integrands has no
+                # tensor product factorisation, the merged rule cannot be sum factorised
+                merged = {r: r for r in group}[rule]  # the equal rule object present as key
+                if merged.has_tensor_factors:
+                    group = {(rule if r is merged else r): v for r, v in group.items()}
+                    grouped_integrands[rule_cell_type] = group
+            group[rule].append(integral.integrand())
     return grouped_integrands
 
 
